@@ -5,11 +5,19 @@ from mc import core, det, domains, sse
 PROPERTY = 'C07'
 ENGINE = 'E2 explicit-state search over search histories on the real index (BFS on canonical state + every sequence up to depth k, no dedup) + E1 input-intactness sweep'
 LEVEL = 'model_checking'
+DIRECTED_ADDITIONS = 'second index inside the histories, bytearray identifiers, tuple posting lists, duplicate identifiers, a build refused part-way, configuration dictionaries without scheme entry / with extra entry / reordered'      # members added during the seeded-change campaign (DESIGN 7); counted under their own vacuity counters
+
 DEPTH = {'quick': 4, 'thorough': 5}
 STATE_CAP = 60
 
 
 def describe(tier):
+    d = _describe(tier)
+    d['rule'] = d['rule'] + ' Directed additions: ' + DIRECTED_ADDITIONS + '.'
+    return d
+
+
+def _describe(tier):
     return {
         'rule': 'histories: for each scheme x {base, default-like} configuration x 3 small databases, the alphabet is search(w) for 3 present '
                 'and 2 absent keywords on the index plus 2 searches on a SECOND index of another database built under the same key by the same scheme object (it shares one keyword, with a different posting list), with ONE token object per keyword reused across the history. (a) BFS: state = history, '
